@@ -51,6 +51,10 @@ TICK_OPS = {"tick", "tks", "gtk", "stk"}
 # state-store operations in the sense of the non-triviality rule (they touch the database)
 SS_OPS = {"get", "set", "gst", "sst", "edit", "clr"}
 SS_NAME = {"get": "get", "set": "set", "gst": "get_state", "sst": "set_state", "edit": "edit_state", "clr": "clear"}
+# set_state() arguments the store must reject after it has started talking to the database (both raise the documented ValueError)
+REJECTED_SST = {"wrong", "unser"}
+# operations that only read (class labels: "nothing but reads between the rejected write and the next set_state/clear")
+READ_OPS = {"qry", "qev", "gtk", "lctx", "get", "gst"}
 
 
 def _other(run: str) -> str:
@@ -76,15 +80,19 @@ class _Side:
 class C21(Prop):
     id = "C21"
     rule = (
-        "case = a tick-replay page size (the repository's 100, or a generated small stand-in 2/3/5) and a generated sequence of 1-16 "
+        "case = a tick-replay page size (the repository's 100, or a generated small stand-in 2/3/5) and a generated sequence of 1-19 "
         "operations over SqliteWorkflowStore: handler update (upsert) / query / delete / "
         "update_handler_status, append_event / query_events, append_tick (single, or a burst of 1-12 ticks; with the repository's page "
         "size sometimes a burst of 95-215 ticks, so that histories span several replay pages, exact multiples of the page included) / "
         "get_ticks / stream_ticks (consumed to the end, or abandoned after k ticks and closed, optionally with one other generated "
         "operation executed by the consumer between two ticks of the stream), get_legacy_ctx, and state-store "
         "operations on stores obtained from create_state_store(run_id[, state_type, serialized_state, serializer]) for two DictState runs "
-        "and two typed-model runs: get / set / get_state / set_state (same type, parent type, wrong type) / clear / edit_state (generated "
-        "mutations, up to two nested store operations inside the block, optionally user code that raises), creation seeded from an "
+        "and two typed-model runs: get / set / get_state / set_state (same type, parent type; or a call the store must reject after it has "
+        "read the row: a state model of an incompatible type, or a state of the right type holding a value the serializer cannot encode - "
+        "both raise ValueError) / clear / edit_state (generated "
+        "mutations, up to two nested store operations inside the block, optionally user code that raises), in a third of the cases a "
+        "rejected set_state followed - directly or after one or two reads - by a valid set_state / clear through the same state store or "
+        "that of another run (inserted as a block at a generated position), creation seeded from an "
         "in-memory payload or from another run's sqlite reference, and 'reopen' (end of process: the persistent connection is closed, a "
         "new store object is opened on the same file). The sequence is applied step by step to two stores on separate temp files, one "
         "opened with single_connection=True exactly as AgentCore does, one with the default per-call connections; after the generated "
@@ -212,7 +220,7 @@ class C21(Prop):
         get = run.flatmap(lambda r: st.tuples(st.just("get"), st.just(r), paths(r), st.booleans(), jv))
         sset = run.flatmap(lambda r: paths(r).flatmap(lambda pth: st.tuples(st.just("set"), st.just(r), st.just(pth), value_for(r, pth))))
         gst = st.tuples(st.just("gst"), run)
-        sst = st.tuples(st.just("sst"), run, st.sampled_from(["same", "same", "same", "parent", "wrong"]), jdict, st.integers(-2, 9), text)
+        sst = st.tuples(st.just("sst"), run, st.sampled_from(["same", "same", "same", "parent", "wrong", "unser"]), jdict, st.integers(-2, 9), text)
         clr = st.tuples(st.just("clr"), run)
         seed = st.one_of(
             st.none(),
@@ -259,8 +267,26 @@ class C21(Prop):
 
         page = st.sampled_from([None, None] + SMALL_PAGES + [3]).flatmap(with_page)
 
+        # Rejected-write storyline (a third of the cases): a set_state() the store must refuse after it has read the row (a state
+        # model of an incompatible type -> merge_state raises ValueError; a value the serializer cannot encode -> ValueError from
+        # the save), then - with nothing or only reads in between - a valid set_state() / clear() through the same state store
+        # (mostly) or through the state store of another run of the same workflow store, inserted as one block at a generated position.
+        def rej_story(r):
+            follow_run = st.sampled_from([r, r, r, _other(r)] + RUNS)
+            follow = follow_run.flatmap(
+                lambda r2: st.one_of(
+                    st.tuples(st.just("sst"), st.just(r2), st.sampled_from(["same", "same", "parent"]), jdict, st.integers(-2, 9), text),
+                    st.tuples(st.just("clr"), st.just(r2)),
+                )
+            )
+            reads = st.one_of(st.just([]), st.just([]), st.lists(st.one_of(qry, qev, gtk, get, gst, lctx), min_size=1, max_size=2))
+            rejected = st.tuples(st.just("sst"), st.just(r), st.sampled_from(["wrong", "unser"]), jdict, st.integers(-2, 9), text)
+            return st.tuples(rejected, reads, follow, st.integers(0, 14))
+
+        rej = st.one_of(st.none(), st.none(), run.flatmap(rej_story))
+
         def build(t):
-            (pg, story), pre, ops = t
+            (pg, story), pre, ops, rej_ = t
             ops = list(ops)
             if story is not None:
                 run_, n_, data_, stop_, mid_, a, b = story
@@ -269,10 +295,14 @@ class C21(Prop):
                 i = min(a, len(ops))
                 ops.insert(i, ("tks", run_, n_, data_))
                 ops.insert(i + 1 + min(b, len(ops) - i - 1), ("stk", run_, stop_, mid_))
+            if rej_ is not None:
+                rejected_, reads_, follow_, at = rej_
+                i = min(at, len(ops))
+                ops[i:i] = [rejected_, *reads_, follow_]
             return _jsonable({"page": pg, "ops": list(pre) + ops})
 
         # a short prefix of handler upserts makes later queries / deletes / status updates hit existing rows
-        return st.tuples(page, st.lists(upd, max_size=2), st.lists(op, min_size=1, max_size=12)).map(build)
+        return st.tuples(page, st.lists(upd, max_size=2), st.lists(op, min_size=1, max_size=12), rej).map(build)
 
     # ------------------------------------------------------------------ applying one operation to one side
 
@@ -397,7 +427,14 @@ class C21(Prop):
             return _dump(await self._state_store(side, op[1]).get_state())
         if k == "sst":
             _, run, kind, data, count, label = op
-            if run in DICT_RUNS:
+            if kind == "unser":
+                # a state of the right type holding a value the JSON serializer cannot encode (top level or nested, by parity)
+                bad = object()
+                if run in DICT_RUNS:
+                    model = self.DictState(**dict(data, **({"a": bad} if count % 2 else {"n": {"k": [bad]}})))
+                else:
+                    model = C21Ext(count=count, label=label or "d", bag={"k": bad} if count % 2 else {"j": [bad]})
+            elif run in DICT_RUNS:
                 model = C21Base(count=count) if kind == "wrong" else self.DictState(**data)
             else:
                 model = {"same": self._typed(count, label), "parent": C21Base(count=count, label=label), "wrong": self.DictState(**data)}[kind]
@@ -494,7 +531,7 @@ class C21(Prop):
         r = CaseResult()
         tmp = tempfile.mkdtemp(prefix="c21-", dir=self.tmproot)
         sides = [_Side(os.path.join(tmp, "default.sqlite"), False), _Side(os.path.join(tmp, "single.sqlite"), True)]
-        info: dict[str, Any] = {"both_raised": 0, "steps": 0, "deleted_rows": False, "at": None, "gen_reads": None, "done": False}
+        info: dict[str, Any] = {"both_raised": 0, "steps": 0, "deleted_rows": False, "at": None, "gen_reads": None, "done": False, "gen_raised": []}
 
         async def main():
             last_ss = None  # last state-store API call that touched the database since the last reopen
@@ -545,6 +582,8 @@ class C21(Prop):
                             single=canon(b)[:160],
                         )
                     return  # the two histories have diverged; later steps would only repeat it
+                if phase == "gen":
+                    info["gen_raised"].append(a[0] == "raise")  # entry i belongs to ops[i]
                 if a[0] == "raise":
                     info["both_raised"] += 1
                     if op[0] in TICK_OPS and not (len(op) > 3 and op[3] is not None):
@@ -607,6 +646,26 @@ class C21(Prop):
             r.classes.append("delete_removed_rows")
         if info["both_raised"]:
             r.classes.append("some_op_raised_in_both")
+        # rejected state writes and what the sequence does right after one (observed: the write raised in both stores)
+        raised = info["gen_raised"]
+        rejected_at = [i for i, op in enumerate(ops) if i < len(raised) and raised[i] and op[0] in ("sst", "set", "edit")]
+        if rejected_at:
+            r.classes.append("rejected_state_write")
+        for i in rejected_at:
+            if ops[i][0] != "sst":
+                continue
+            r.classes.append("rejected_set_state_unserialisable_value" if ops[i][2] == "unser" else "rejected_set_state_incompatible_type")
+            j = i + 1
+            while j < len(ops) and (ops[j][0] in READ_OPS or (ops[j][0] == "stk" and (len(ops[j]) < 4 or ops[j][3] is None))):
+                j += 1
+            if j < len(ops) and ops[j][0] in ("sst", "clr"):
+                r.classes.append("rejected_set_state_then_only_reads_then_set_state_or_clear")
+                if j == i + 1:
+                    r.classes.append("rejected_set_state_directly_followed_by_set_state_or_clear")
+                r.classes.append("rejected_set_state_then_%s" % ("set_state" if ops[j][0] == "sst" else "clear"))
+                if ops[j][1] != ops[i][1]:
+                    r.classes.append("rejected_set_state_then_write_through_another_runs_state_store")
+        r.classes = list(dict.fromkeys(r.classes))
         # tick replay: how often the new shapes (several pages per replay, abandoned streams, operations during a stream) are reached
         reads = sides[0].reads
         n_gen = len(reads) if info["gen_reads"] is None else info["gen_reads"]
